@@ -64,10 +64,33 @@ def _accept_invalid(evs):
 META = ("sync", ["-what", "metasmall"], "sync-metasmall")
 
 
+def _mc(run):
+    """algorithm layer: which entries a hard link may name when the receiver does not create everything that is announced"""
+    import os
+    from vlib import Inconclusive
+    run.tlc_mc("ReceiveLinksMC", "ReceiveLinksMC.cfg", label="alg/receive+diskwriter, hard links over listed-only / filter-rejected entries: contained but for the recorded finding (how x keep x merge x prior)")
+    run.tlc_mc("ReceiveLinksMC", "ReceiveLinksMC_full.cfg", label="alg: with a DiskWriter that refuses to write below a skipped path (not in the tree) containment holds without exception")
+    for cfg, inv, what in (("ReceiveLinksMC_asBuiltStrict.cfg", "Contained", "as built, strict containment: the recorded finding must show"),
+                           ("ReceiveLinksMC_pinned.cfg", "ContainedButKnown", "pinned tree (neither repair)"),
+                           ("ReceiveLinksMC_noCreated.cfg", "ContainedButKnown", "without the created-entries validator (77441fc)"),
+                           ("ReceiveLinksMC_noRejected.cfg", "ContainedButKnown", "without the rejected-path check of DiskWriter (857f1db)")):
+        r = run.tlc_mc("ReceiveLinksMC", cfg, label="sanity: " + what, expect_error=True)
+        if "Invariant %s is violated" % inv not in r["out"]:
+            raise Inconclusive("ReceiveLinksMC sanity configuration %s was not rejected: the model is vacuous" % cfg)
+    gen = os.path.join(run.work, "gen")
+    os.makedirs(gen, exist_ok=True)
+    run.tlc_mc("ReceiveLinksMC", "ReceiveLinksMC_gen.cfg", workers=1, label="TLC enumerates the cases of ReceiveLinksMC for the hostile driver", env=dict(VERIF_GEN_DIR=gen))
+    if len([f for f in os.listdir(gen) if f.startswith("linkcase_")]) != 102:
+        raise Inconclusive("ReceiveLinksMC case generation wrote %d files, 102 expected" % len(os.listdir(gen)))
+    run.gen_dir = gen
+
+
 def check(run):
     # also: metadata-only transfers into destinations whose listing name is a symlink to a file outside (the listing is
     # the one file the receiver writes that no STAT announces)
-    return syncfam.run_family(run, "C03", "hostile", PFX, sig=_sig, text=_text, assumptions=ASSUME, also=[META], selftests=[
+    run.build()
+    _mc(run)
+    return syncfam.run_family(run, "C03", "hostile", PFX, sig=_sig, text=_text, assumptions=ASSUME, also=[META], env=dict(VERIF_GEN_DIR=run.gen_dir), selftests=[
         ("change the ctime of an outside file in the after-snapshot", _touch_outside),
         ("turn the rejection of a stream containing '..' into success", _accept_invalid)])
 
